@@ -60,6 +60,44 @@ def _run_one(job):
     return d
 
 
+# Dependency cones: a property's check runs every contract its statement depends on, also those written while working on a
+# neighbouring property (lesson of the fifth seed round: 7 of 10 misses were caught by an existing contract that was not
+# listed under the seeded property).  (regex on 'Class.method', regex on the variant name, properties added)
+CONES = [
+    # the catch path of the single-thread prefetch IS CatchExceptionDataset; ParMap / Prefetch iteration wire the parallel utilities
+    (r'^CatchExceptionDataset\.(__iter__|__init__)$', r'', {'C04', 'C06'}),
+    (r'^(ParMapDataset|PrefetchDataset)\.__iter__$', r'', {'C04', 'C05', 'C06', 'C07'}),
+    (r'^(ParMapDataset|PrefetchDataset)\.__init__$', r'', {'C04', 'C05', 'C06', 'C07'}),
+    # isolation through the disk cache
+    (r'^_DiskCacheWrapper\.(__getitem__|__setitem__)$', r'', {'C09'}),
+    # the memory / disk cache datasets share CacheDataset's methods
+    (r'^CacheDataset\.(__len__|keys|indexable|ordered|copy|__init__)$', r'', {'C10', 'C11'}),
+    # one-time shuffles, frozen copies, shards, sorted views and groups ARE SliceDatasets (by an index array / list)
+    (r'^SliceDataset\.(__iter__|__getitem__|__len__|keys|__init__)$', r'^(?!int:np)', {'C12', 'C13', 'C15', 'C18'}),
+    # catch() evaluates its input by index (values) and by key (items): the plain integer lookups of every stage
+    (r'\.__getitem__$', r'^int$', {'C14', 'C04'}),      # C04: the workers of a multi-worker prefetch evaluate frozen_copy[i]
+    (r'\.copy$', r'', {'C04'}),
+    (r'^(ParMapDataset|PrefetchDataset)\.__iter__$', r'', {'C13'}),
+    (r'^ProfilingDataset\.__iter__$', r'', {'C01'}),
+    (r'^ProfilingDataset\.(__len__|__getitem__)$', r'', {'C02'}),
+    (r'^ProfilingDataset\.keys$', r'', {'C03'}),
+    (r'^(Dataset\.cache|DictDataset\.__init__|ListDataset\.__init__)$', r'', {'C09'}),
+    (r'^LocalShuffleDataset\.__init__$', r'', {'C12', 'C13'}),
+    # the database layer builds its datasets with from_dict / new / concatenate
+    (r'^(\.from_dict|\.new|DictDataset\.__init__|ConcatenateDataset\.__init__|Dataset\.concatenate)$', r'', {'C19'}),
+]
+
+
+def cone_props(cls, meth, vname):
+    import re
+    key = '%s.%s' % (cls or '', meth)
+    out = set()
+    for kre, vre, props in CONES:
+        if re.search(kre, key) and re.search(vre, vname):
+            out |= props
+    return out
+
+
 def jobs_for(prop, both, repo):
     jobs = []
     for m in CONTRACT_MODULES:      # import everything first: contracts.laws extends props of other modules
@@ -81,6 +119,7 @@ def jobs_for(prop, both, repo):
                     # batch indexing ... goes through d[i], len and keys of their inputs)
                     if prop == 'C01' and c.cls and meth in ('__getitem__', '__len__', 'keys') and props & {'C02', 'C03'}:
                         props.add('C01')
+                    props |= cone_props(c.cls, meth, v.name)
                     if prop in props:
                         jobs.append((m, ci, meth, vi, both, repo))
     return jobs
